@@ -23,10 +23,13 @@ Marker(sort) ==
       [] sort = "CP" -> N("CP.VariableDefinition", [name |-> "mk", vattrs |-> <<>>], <<<<U256>>, <<ME>>>>)
       [] sort = "SUP" -> N("SUP.VariableDefinition", [name |-> "MK", vattrs |-> <<"constant">>], <<<<U256>>, <<ME>>>>)
 
+\* the grammar does not admit a function TYPE as the callee of a call
+CalleeOfType(f1, g) == f1.out = "T" /\ g.k \in {"E.FunctionCall", "E.NamedFunctionCall", "E.FunctionCallBlock"} /\ g.hs = 1
+
 LevelATrees == {ToFile(Plug(f, Marker(f.in)), f.out) : f \in AllFrames}
 \* (parameterised so that TLC does not pre-evaluate it when LevelB is off)
 LevelBTrees(dummy) == UNION {{ToFile(Plug(f2, Plug(f1, Marker(f1.in))), f2.out) :
-                          f2 \in {g \in AllFrames : Fits(f1.out, g.in)}} : f1 \in AllFrames}
+                          f2 \in {g \in AllFrames : Fits(f1.out, g.in) /\ ~CalleeOfType(f1, g)}} : f1 \in AllFrames}
 Trees == LevelATrees \cup (IF LevelB THEN LevelBTrees(0) ELSE {})
 
 TargetSets == {AllTargets, {"PostIncrement"}, {"Expression", "VariableDefinition", "Block"}}
